@@ -346,6 +346,16 @@ func genPrimAead(r *rand.Rand, n int) []string {
 		big := i%25 == 0
 		k, nonce := randBytes(r, ks), randBytes(r, ns)
 		pt, aad := randBytes(r, msgLen(r, big)), randBytes(r, msgLen(r, big && r.Intn(2) == 0))
+		if i%40 == 3 { // AES-CCM-16-*: plaintext / ciphertext lengths around the 2^16 limit
+			alg = []int{10, 11, 30, 31}[r.Intn(4)]
+			k, nonce = randBytes(r, keySizeOf(alg)), randBytes(r, 13)
+			pt = randBytes(r, []int{65519, 65520, 65527, 65528, 65534, 65535, 65536, 65537, 100000}[r.Intn(9)])
+			aad = randBytes(r, r.Intn(20))
+		}
+		if i%40 == 23 { // AAD lengths around 0xff00, where the RFC 3610 length prefix changes form
+			aad = randBytes(r, []int{65279, 65280, 65281, 66000}[r.Intn(4)])
+			pt = randBytes(r, r.Intn(40))
+		}
 		out = append(out, fmt.Sprintf("prim.aead.enc %d %s %s %s %s", alg, hx(k), hx(nonce), hx(pt), hx(aad)))
 		e, err := encryptorFor(alg, k)
 		if err != nil {
